@@ -64,7 +64,9 @@ META = {
             "every k ≤ reject+1; a case (= one step() call or one update) is non-trivial when at least one trial or a "
             "non-identity update happened, distinct by (stream, family, strategy, reject, k, ending, dtype, call bucket)",
     "trusted": ["the user model's forward (residuals) and torch autograd for its Jacobian (external; J is property C04/C07)",
-                "the linear solve itself (A_k, b and the solver are property C07/C10); here only its interface: returns D or raises"],
+                "the linear solve itself (the solver is property C07/C10): returns D or raises; what it is handed is compared with the model for "
+                "unweighted dense trials: A's off-diagonal part = JᵀJ and b = −JᵀR (stream normal, `SolvesDamped`), A's diagonal = "
+                "clamp(diag JᵀJ)·Π(1+damping) over the trials of the call (stream diag, `lmDiag`)"],
     "assumptions": ["retr (retr p d) (neg d) = p (hypothesis hinv of the loop theorems): exact over ℝ for Euclidean parameters "
                     "(vec_retr_inv) and for SO3 in the closed-form branch (so3_retr_inv); on the real code checked up to "
                     "round-off of the retraction by the `restore` oracle",
@@ -303,7 +305,7 @@ def strategy_attrs(st) -> dict:
     if isinstance(st, _InnerProxy):
         st = object.__getattribute__(st, "_obj")
     for k, v in vars(st).items():
-        if k in ("flavour",):
+        if k in ("vfh08_flavour",):
             continue
         if isinstance(v, dict):
             out[k] = dict(v)
@@ -320,34 +322,34 @@ class RecStrategy:
     """user-supplied strategy object: records what `update` is called with and what it does to pg"""
 
     def __init__(self, inner):
-        self.inner = inner
+        self.vfh08_inner = inner
         self.defaults = inner.defaults
-        self.log = []
-        self.module = None
+        self.vfh08_log = []
+        self.vfh08_module = None
 
     # LM reads .min/.max nowhere; keep attribute access transparent
     def __getattr__(self, name):
-        if name == "inner" or name.startswith("__"):
+        if name == "vfh08_inner" or name.startswith("__"):
             raise AttributeError(name)          # copy / pickle probe special names before `inner` exists
-        return getattr(self.inner, name)
+        return getattr(self.vfh08_inner, name)
 
     def update(self, pg, last, loss, J, D, R, *args, **kwargs):
-        hyp = pg_hyper(pg, self.inner)
-        if getattr(self, "doc_hyper", None):
-            hyp.update(self.doc_hyper)        # documented defaults, not values read back from the (default-constructed) object
+        hyp = pg_hyper(pg, self.vfh08_inner)
+        if getattr(self, "vfh08_doc_hyper", None):
+            hyp.update(self.vfh08_doc_hyper)        # documented defaults, not values read back from the (default-constructed) object
         ev = {"pg_before": pg_state(pg), "hyper": hyp, "last": last.detach().clone(),
               "loss": loss.detach().clone(), "J": J.detach().clone(), "D": D.detach().clone(), "R": R.detach().clone(),
-              "params": [raw(p) for p in self.module.parameters()] if self.module is not None else None,
+              "params": [raw(p) for p in self.vfh08_module.parameters()] if self.vfh08_module is not None else None,
               "refs": (J, D, R, last, loss), "pg_full_before": {k: v for k, v in pg.items() if k != "params"}}
-        attrs = strategy_attrs(self.inner)
-        self.inner.update(pg, last=last, loss=loss, J=J, D=D, R=R)
+        attrs = strategy_attrs(self.vfh08_inner)
+        self.vfh08_inner.update(pg, last=last, loss=loss, J=J, D=D, R=R)
         ev["pg_after"] = pg_state(pg)
         ev["pg_full_after"] = {k: v for k, v in pg.items() if k != "params"}
-        ev["strategy_attrs_changed"] = diff_attrs(attrs, strategy_attrs(self.inner))
+        ev["strategy_attrs_changed"] = diff_attrs(attrs, strategy_attrs(self.vfh08_inner))
         ev["args_changed"] = [nm for nm, ref, cl in zip("J D R last loss".split(), ev["refs"],
                                                         (ev["J"], ev["D"], ev["R"], ev["last"], ev["loss"]))
                               if not torch.equal(torch.Tensor.as_subclass(ref.detach(), torch.Tensor), cl)]
-        self.log.append(ev)
+        self.vfh08_log.append(ev)
 
 
 _SUBCLS = {}
@@ -370,27 +372,27 @@ def rec_strategy_subclass(inner, flavour):
                 pg["damping"] = pg["damping"] * 3.0 if bool(loss > last) else pg["damping"] / 3.0
             else:
                 base.update(self, pg, last=last, loss=loss, J=J, D=D, R=R)
-        members = {"update": update, "_apply": inner_update}
+        members = {"update": update, "vfh08_apply": inner_update}
         if flavour == "props":
             # the subclass exposes min / max / down as PROPERTIES (computed from private fields) instead of attributes
             for nm_ in ("min", "max", "down"):
-                members[nm_] = property(lambda self, _n=nm_: self.__dict__["_p_" + _n])
+                members[nm_] = property(lambda self, _n=nm_: self.__dict__["vfh08_p_" + _n])
         _SUBCLS[key] = type("User" + base.__name__, (base,), members)
     obj = _copy_module.copy(inner)
     if flavour == "props":
         for nm_ in ("min", "max", "down"):
             if nm_ in obj.__dict__:
-                obj.__dict__["_p_" + nm_] = obj.__dict__.pop(nm_)
+                obj.__dict__["vfh08_p_" + nm_] = obj.__dict__.pop(nm_)
             else:
-                obj.__dict__["_p_" + nm_] = 1.0
+                obj.__dict__["vfh08_p_" + nm_] = 1.0
     obj.__class__ = _SUBCLS[key]
-    obj.log, obj.module, obj.flavour = [], None, flavour
-    obj.inner = _InnerProxy(obj)
+    obj.vfh08_log, obj.vfh08_module, obj.vfh08_flavour = [], None, flavour
+    obj.vfh08_inner = _InnerProxy(obj)
     return obj
 
 
 class _InnerProxy:
-    """what RecStrategy.update calls `self.inner`: attribute reads go to the strategy object itself, `update` to its law"""
+    """what RecStrategy.update calls `self.vfh08_inner`: attribute reads go to the strategy object itself, `update` to its law"""
 
     def __init__(self, obj):
         object.__setattr__(self, "_obj", obj)
@@ -400,7 +402,7 @@ class _InnerProxy:
 
     def update(self, pg, last, loss, J, D, R):
         o = object.__getattribute__(self, "_obj")
-        return o._apply(pg, last, loss, J, D, R)
+        return o.vfh08_apply(pg, last, loss, J, D, R)
 
 
 def rec_solver_subclass(rec, base_name):
@@ -1227,11 +1229,11 @@ def _scenario_steps(ctx: Ctx, scn, collect, shared_inner=None, sink=None):
                     if got != doc:
                         bad.append(f"param group {got} instead of the documented defaults {doc}")
                     strat_ = RecStrategy(opt_.strategy)
-                    strat_.doc_hyper = {"down0": 0.5, "smin": 1e-6, "smax": 1e16}
+                    strat_.vfh08_doc_hyper = {"down0": 0.5, "smin": 1e-6, "smax": 1e16}
                     opt_.strategy = strat_
                 else:
                     strat_ = kw["strategy"]
-                strat_.module = mod
+                strat_.vfh08_module = mod
                 if "reject" in omit and opt_.reject != 16:
                     bad.append(f"default reject is {opt_.reject}")
             if "kernel" in omit and not (len(opt_.model.kernel) == 1 and type(opt_.model.kernel[0]).__name__ == "Trivial"):
@@ -1243,7 +1245,7 @@ def _scenario_steps(ctx: Ctx, scn, collect, shared_inner=None, sink=None):
             return opt_, strat_
         if is_lm:
             strat_ = rec_strategy_subclass(inner_, scn["sub_strategy"]) if scn.get("sub_strategy") else RecStrategy(inner_)
-            strat_.module = mod
+            strat_.vfh08_module = mod
             if positional:
                 opt_ = P.optim.LM(mod, solver_, strat_, kern, corr, w_ctor, scn["reject"], scn["lm_min"], scn["lm_max"], vec)
             else:
@@ -1347,7 +1349,7 @@ def _scenario_steps(ctx: Ctx, scn, collect, shared_inner=None, sink=None):
                 module = _copy.deepcopy(module)
                 solver2 = RecSolver(solver.inner, solver.plan)
                 solver2.nsolve, solver2.limit = solver.nsolve, solver.limit
-                inner2 = _copy.deepcopy(strat.inner) if is_lm else None
+                inner2 = _copy.deepcopy(strat.vfh08_inner) if is_lm else None
                 solver = solver2
                 opt, strat = construct(module, solver, inner2)
                 opt.load_state_dict(sd)
@@ -1358,11 +1360,11 @@ def _scenario_steps(ctx: Ctx, scn, collect, shared_inner=None, sink=None):
                 pg = opt.param_groups[0]
                 prev_pg = None
             elif is_lm and copy_what in ("strategy-deepcopy", "strategy-copy", "strategy-pickle"):
-                strat.inner = (_copy.deepcopy(strat.inner) if copy_what == "strategy-deepcopy" else
-                               _copy.copy(strat.inner) if copy_what == "strategy-copy" else
-                               _pickle.loads(_pickle.dumps(strat.inner)))
+                strat.vfh08_inner = (_copy.deepcopy(strat.vfh08_inner) if copy_what == "strategy-deepcopy" else
+                               _copy.copy(strat.vfh08_inner) if copy_what == "strategy-copy" else
+                               _pickle.loads(_pickle.dumps(strat.vfh08_inner)))
         solver.call, solver.trial = call, 0
-        s0, u0 = len(solver.log), (len(strat.log) if strat else 0)
+        s0, u0 = len(solver.log), (len(strat.vfh08_log) if strat else 0)
         given = [raw(p) for p in module.parameters()]
         gms, rgs = scn.get("grad_modes"), scn.get("req_grads")
         gm_ = gms[call % len(gms)] if gms else grad_mode
@@ -1379,7 +1381,7 @@ def _scenario_steps(ctx: Ctx, scn, collect, shared_inner=None, sink=None):
         had_cache = hasattr(opt, "loss")
         cached = float(opt.loss) if had_cache else None
         pg_before_call = pg_state(pg) if is_lm else None
-        hyper_call = pg_hyper(pg, strat.inner) if is_lm else None
+        hyper_call = pg_hyper(pg, strat.vfh08_inner) if is_lm else None
         attrs0 = optimizer_attrs(opt, is_lm, None if own_law else skind)
         ctx.count(f"class.input-form.{form}")
         if call == 0 and scn.get("param_view"):
@@ -1427,7 +1429,7 @@ def _scenario_steps(ctx: Ctx, scn, collect, shared_inner=None, sink=None):
         if exc == "abandon":
             # the real code raised on non-finite data (modjac's NaN assertion, a solver on NaN input ...): find where the
             # first non-finite value came from, as for a call that returned
-            gate = nonfinite_gate(scn, dtype, module, tl, given, given_true, pg_before_call, solver.log[s0:], strat.log[u0:] if strat else [],
+            gate = nonfinite_gate(scn, dtype, module, tl, given, given_true, pg_before_call, solver.log[s0:], strat.vfh08_log[u0:] if strat else [],
                                   [raw(p) for p in module.parameters()], None, opt, is_lm, call)
             if gate is not None and gate[0] == "fail":
                 fail(gate[1])
@@ -1470,7 +1472,7 @@ def _scenario_steps(ctx: Ctx, scn, collect, shared_inner=None, sink=None):
             prev_pg = pg_state(pg) if is_lm else None      # earlier trials of this call legitimately updated the group
             continue
         sol = solver.log[s0:]
-        ups = strat.log[u0:] if strat else []
+        ups = strat.vfh08_log[u0:] if strat else []
         final = [raw(p) for p in module.parameters()]
         ntr = len(sol)
         # ---- non-finite values: found at their first occurrence. A NaN/inf produced by the code under test from finite
@@ -1706,6 +1708,9 @@ def _scenario_steps(ctx: Ctx, scn, collect, shared_inner=None, sink=None):
                     collect.setdefault("normal", []).append(nr_)
                 else:
                     ctx.count("normal.skipped-overflow")
+                dr_ = diag_request(scn, ev, up, [u_["pg_before"]["damping"] for u_ in ups[:ui]], dtype, call, t)
+                if dr_ is not None:
+                    collect.setdefault("diag", []).append(dr_)
             # the trial point is Retr(parameters before the trial, D): for Euclidean parameters p + D entry by entry
             # (also when the parameter is a non-contiguous view: an update applied to a private copy moves nothing)
             if "D" in ev and up["params"] is not None:
@@ -2033,6 +2038,45 @@ def normal_request(scn, ev, up, dtype, call, t):
             "genuine": ev["scale"] == 1.0, "lam_pos": bool((lam > 0).all()), "nonzero": bool((Dgiven != 0).any())}
 
 
+def diag_request(scn, ev, up, damps, dtype, call, t):
+    """the diagonal of the matrix handed to the solver against the model's `lmDiag` (clamp of diag(JᵀJ) to
+    [pg['min'], pg['max']] once per call, then d += d·damping in every trial so far of the call)"""
+    full = up.get("pg_full_before") or {}
+    if "min" not in full or "max" not in full:
+        return None
+    lo, hi = float(full["min"]), float(full["max"])
+    J = up["J"].double()
+    m, n = J.shape
+    obs = ev["A"].double().diagonal()
+    if not (all(math.isfinite(v) for v in damps + [lo, hi]) and all_finite(J, obs, J.T @ J)):
+        return None
+    line = (f"c08.diag {to_wire(lo)} {to_wire(hi)} {m} {n} {wire_list(J.flatten().tolist())} {len(damps)} {wire_list(damps)}")
+    return {"line": line, "scn": scn, "call": call, "t": t, "n": n, "obs": obs.tolist(),
+            "rtol": 16 * EPS[dtype] * (m + 2 * len(damps) + 4), "damps": damps, "lo": lo, "hi": hi}
+
+
+def settle_diag(ctx: Ctx, items):
+    if not items:
+        return
+    reps = ctx.driver.run([it["line"] for it in items])
+    for it, rep in zip(items, reps):
+        nums = common.reply_nums(rep)
+        n = it["n"]
+        diag, shift = nums[:n], nums[n:2 * n]
+        ctx.count("diag.compared")
+        for j in range(n):
+            if not (abs(Fraction(it["obs"][j]) - diag[j]) <= Fraction(it["rtol"]) * abs(diag[j]) + Fraction(1, 2 ** 1000)):
+                ctx.disagree("diag", it["scn"], f"call {it['call']} trial {it['t']}: A[{j},{j}] handed to the solver = {it['obs'][j]!r}, model "
+                                               f"lmDiag = {float(diag[j])!r} (min {it['lo']!r}, max {it['hi']!r}, dampings {it['damps']})")
+                ctx.fail(it["scn"], f"normal-equations: diagonal entry {j} of the matrix handed to the solver is {it['obs'][j]!r}; "
+                                    f"clamp((JᵀJ)_jj, {it['lo']!r}, {it['hi']!r})·Π(1+damping) over the dampings {it['damps']} of this call is "
+                                    f"{float(diag[j])!r} (call {it['call']} trial {it['t']})")
+                break
+        else:
+            ctx.count(f"diag.shift-{'positive' if all(x > 0 for x in shift) else 'nonpositive'}")
+            ctx.note_case(("diag", it["scn"]["family"], it["scn"]["dtype"], len(it["damps"]), all(x > 0 for x in shift)), True)
+
+
 def settle_normal(ctx: Ctx, items):
     if not items:
         return
@@ -2234,7 +2278,7 @@ def run_upd_stream(ctx: Ctx, n, rng=None):
         case = {"kind": "upd", "spec": spec, "pg": {k: float(v) for k, v in pg.items()}, "dtype": dtype,
                 "last": float(last), "loss": float(loss), "J": J.tolist(), "D": D.tolist(), "R": R.tolist()}
         rec.update(pg, last=last, loss=loss, J=J, D=D, R=R)
-        up = rec.log[-1]
+        up = rec.vfh08_log[-1]
         reqs.append(upd_request(case, spec["kind"], up, dtype, where="direct update"))
         check_bounds_direct(ctx, case, spec["kind"], up)
         ctx.count(f"upd.{spec['kind']}.{region}")
@@ -2283,7 +2327,7 @@ def run_hist_case(ctx: Ctx, case):
             qv = spec["high"] + 1.0
         qs.append(qv)
         rec.update(pg, last=torch.tensor(qv + 2.0, dtype=dt), loss=torch.tensor(2.0, dtype=dt), J=J, D=D, R=R)
-    for i, up in enumerate(rec.log):
+    for i, up in enumerate(rec.vfh08_log):
         msg = update_nonfinite(spec["kind"], up, f"update {i} of a threaded history")
         if msg:
             ctx.fail(case, msg)
@@ -2291,7 +2335,7 @@ def run_hist_case(ctx: Ctx, case):
         check_bounds_direct(ctx, case, spec["kind"], up)
     line = (f"c08.stratrun {KINDS[spec['kind']]} {hyper_wire(h0)} {state_wire(s0)} " +
             " ".join(f"{to_wire((qv + 2.0) - 2.0)} 1:0" for qv in qs))
-    return {"line": line, "case": case, "log": rec.log, "spec": spec}
+    return {"line": line, "case": case, "log": rec.vfh08_log, "spec": spec}
 
 
 def run_edithist_case(ctx: Ctx, case):
@@ -2330,7 +2374,7 @@ def run_edithist_case(ctx: Ctx, case):
         R[0, 0] = -1.0                                   # den = -(1 * (-2 + 1)) = 1, quality = last - loss exactly
         others = [dict(p) for j, p in enumerate(pgs) if j != g]
         rec.update(pg, last=torch.tensor(qv + 2.0, dtype=dt), loss=torch.tensor(2.0, dtype=dt), J=J, D=D, R=R)
-        up = rec.log[-1]
+        up = rec.vfh08_log[-1]
         if [dict(p) for j, p in enumerate(pgs) if j != g] != others:
             ctx.fail(case, f"strategy-state: update {i} on param group {g} changed another param group served by the same strategy object")
         if up["strategy_attrs_changed"]:
@@ -3015,6 +3059,7 @@ def settle_collect(ctx: Ctx, collect):
     settle_gn(ctx, collect["gn"])
     settle_lmloss(ctx, collect["loss"])
     settle_normal(ctx, collect.get("normal", []))
+    settle_diag(ctx, collect.get("diag", []))
 
 
 TWIN_KEYS = ("call_style", "ctor_style", "input_container", "scalar_input", "grad_mode", "input_requires_grad", "kernel_wrap",
@@ -3387,7 +3432,7 @@ def direct_update(strat, pg, last, loss, J, D, R):
     before = pg_state(pg)
     try:
         rec.update(pg, last=last, loss=loss, J=J, D=D, R=R)
-        return rec.log[-1]
+        return rec.vfh08_log[-1]
     except ZeroDivisionError:
         return {"pg_before": before, "hyper": pg_hyper(pg, strat), "last": last, "loss": loss, "J": J, "D": D, "R": R,
                 "pg_after": pg_state(pg), "raised": "ZeroDivisionError", "params": None}
@@ -3457,7 +3502,7 @@ def run_tie_updates(ctx: Ctx):
                         case = {"kind": "upd", "spec": spec, "pg": {k: float(v) for k, v in pg.items()}, "dtype": dtype,
                                 "last": float(last), "loss": float(loss), "J": J.tolist(), "D": D.tolist(), "R": R.tolist()}
                         rec.update(pg, last=last, loss=loss, J=J, D=D, R=R)
-                        up_ = rec.log[-1]
+                        up_ = rec.vfh08_log[-1]
                         check_bounds_direct(ctx, case, kind, up_)
                         reqs.append(upd_request(case, kind, up_, dtype, where="tie corpus"))
                         ctx.count("class.tie-update")
@@ -3620,6 +3665,7 @@ def replay(ctx: Ctx, case) -> bool:
         settle_gn(ctx, collect["gn"])
         settle_lmloss(ctx, collect["loss"])
         settle_normal(ctx, collect.get("normal", []))
+        settle_diag(ctx, collect.get("diag", []))
     elif kind == "upd":
         spec = c["spec"]
         dt = getattr(torch, c["dtype"])
@@ -3629,7 +3675,7 @@ def replay(ctx: Ctx, case) -> bool:
         rec = RecStrategy(strat)
         rec.update(pg, last=torch.tensor(c["last"], dtype=dt), loss=torch.tensor(c["loss"], dtype=dt),
                    J=torch.tensor(c["J"], dtype=dt), D=torch.tensor(c["D"], dtype=dt), R=torch.tensor(c["R"], dtype=dt))
-        up = rec.log[-1]
+        up = rec.vfh08_log[-1]
         print("  pg before:", up["pg_before"], "after:", up["pg_after"])
         check_bounds_direct(ctx, c, spec["kind"], up)
         settle_updates(ctx, [upd_request(c, spec["kind"], up, c["dtype"], where="direct update")], "upd")
